@@ -137,3 +137,16 @@ func VerifBufferStats(b *Buffer) (maxBytes, maxMem, mem, disk int64, overflowed 
 	}
 	return b.maxBytes, b.maxMemBytes, b.memBytesWritten, b.diskBytesWritten, b.overflowed, spill
 }
+
+// VerifInflightRequests lists the requests of an inflight map handed to a hook.
+func VerifInflightRequests(m any) []*http.Request {
+	im, ok := m.(inflightMap)
+	if !ok {
+		return nil
+	}
+	out := make([]*http.Request, 0, len(im))
+	for r := range im {
+		out = append(out, r)
+	}
+	return out
+}
